@@ -1,4 +1,196 @@
 import DaeVerif.C18.Proofs
+/-!
+# C18 — property theorems
+
+"For every proxied connection the address sent to the proxy node is the original destination IP and
+port when dial_mode is ip, when no name was sniffed, or when the outbound is a built-in one; in
+domain mode it is the sniffed name only if that name is known to be genuine (resolved through dae or
+verified), otherwise the IP; in domain+ it is the sniffed name unconditionally, and in domain++
+additionally the flow is routed again using that name. A sniffed value that is an IP literal (with
+or without brackets) or already carries a port is normalised and never produces a malformed target."
+
+All theorems are about the definitions of `Model.lean` that the driver `c18drv` executes.
+-/
 namespace DaeVerif.C18.Props
-theorem placeholder : True := trivial
+open DaeVerif.C18
+
+/-- "known to be genuine" as the code decides it in domain mode: not an IP-like value, and either
+an unexpired knowledge entry for `(name, family of dst)` or membership in the verified set. -/
+def genuine (w : World) (dst : Dst) (d : Str) : Bool :=
+  !isIPLike d && ((hasKnowledge w (cacheKey d dst.is4)).2 || w.realSet.contains d)
+
+/-! ## row 1: ip mode, no name, built-in outbound -/
+
+theorem ip_target_when_ip_mode_or_no_name_or_reserved (w : World) (ob : Nat) (dst : Dst) (d : Str)
+    (h : w.mode = .ip ∨ d = [] ∨ isReserved ob = true) :
+    chooseDialTarget w ob dst d =
+      (w, { target := fmtAddrPort dst, reroute := false, dialIp := true, probeReq := none }) := by
+  rw [chooseDialTarget_eq, decideMode_ip w ob dst d h]
+  rfl
+
+example : (chooseDialTarget { mode := .domainCao } 0 ⟨true, 0x01020304, 443⟩ "evil.example".toList).2.target
+    = "1.2.3.4:443".toList := by decide
+example : (chooseDialTarget { mode := .ip } 2 ⟨false, 0x20010db8000000000000000000000001, 443⟩ "evil.example".toList).2.target
+    = "[2001:db8::1]:443".toList := by decide
+
+/-! ## row 2: domain mode -/
+
+/-- domain mode: the sniffed name is used exactly when it is genuine; otherwise the IP. (The
+re-route flag equals `genuine` too: the code re-routes a genuine name in domain mode; the property
+statement does not constrain that, it is recorded here as the code has it.) -/
+theorem domain_mode_name_iff_genuine (w : World) (ob : Nat) (dst : Dst) (d : Str)
+    (hm : w.mode = .domain) (hr : isReserved ob = false) (hd : d ≠ []) :
+    (chooseDialTarget w ob dst d).2.target =
+        (if genuine w dst d then (nameTarget d dst.port).1 else fmtAddrPort dst) ∧
+    (chooseDialTarget w ob dst d).2.dialIp =
+        (if genuine w dst d then (nameTarget d dst.port).2 else true) ∧
+    (chooseDialTarget w ob dst d).2.reroute = genuine w dst d := by
+  obtain ⟨f1, f2⟩ := decideMode_domain_flags w ob dst d hm hr hd
+  rw [chooseDialTarget_eq]
+  unfold genuine
+  simp only []
+  rw [f1, f2]
+  generalize (!isIPLike d && ((hasKnowledge w (cacheKey d dst.is4)).2 || w.realSet.contains d)) = g
+  cases g <;> simp
+
+/-- domain mode, not genuine (unknown, negatively cached, IP-like, expired knowledge …): the
+destination IP and port, no re-route. -/
+theorem domain_mode_otherwise_ip (w : World) (ob : Nat) (dst : Dst) (d : Str)
+    (hm : w.mode = .domain) (hg : genuine w dst d = false) :
+    (chooseDialTarget w ob dst d).2.target = fmtAddrPort dst ∧
+    (chooseDialTarget w ob dst d).2.dialIp = true ∧
+    (chooseDialTarget w ob dst d).2.reroute = false := by
+  by_cases h : d = [] ∨ isReserved ob = true
+  · rw [ip_target_when_ip_mode_or_no_name_or_reserved w ob dst d (Or.inr h)]; simp
+  · have hd : d ≠ [] := fun e => h (Or.inl e)
+    have hr : isReserved ob = false := by cases hh : isReserved ob <;> simp_all
+    have := domain_mode_name_iff_genuine w ob dst d hm hr hd
+    simpa [hg] using this
+
+/-- `genuine` spelled out: knowledge entry not yet expired, or verified by a probe. -/
+theorem genuine_iff (w : World) (dst : Dst) (d : Str) :
+    genuine w dst d = true ↔
+      isIPLike d = false ∧
+      ((∃ e, w.know.get (cacheKey d dst.is4) = some e ∧ w.now < e) ∨ d ∈ w.realSet) := by
+  unfold genuine
+  have hk := hasKnowledge_true_iff w (cacheKey d dst.is4)
+  have ne : cacheKey d dst.is4 ≠ [] := by
+    unfold cacheKey qtypeStr; cases dst.is4 <;> simp
+  simp only [Bool.and_eq_true, Bool.not_eq_true', Bool.or_eq_true, hk, List.contains_iff_mem]
+  constructor
+  · rintro ⟨a, (⟨_, b⟩ | b)⟩
+    · exact ⟨a, Or.inl b⟩
+    · exact ⟨a, Or.inr b⟩
+  · rintro ⟨a, (b | b)⟩
+    · exact ⟨a, Or.inl ⟨ne, b⟩⟩
+    · exact ⟨a, Or.inr b⟩
+
+-- non-vacuity: a genuine name (knowledge) and a non-genuine one in the same world
+example :
+    let w : World := { mode := .domain, now := 5, know := [("a.test.1".toList, 9)] }
+    genuine w ⟨true, 0x01020304, 443⟩ "a.test".toList = true ∧
+    genuine w ⟨true, 0x01020304, 443⟩ "b.test".toList = false ∧
+    genuine w ⟨false, 1, 443⟩ "a.test".toList = false ∧   -- other family: no knowledge
+    (chooseDialTarget w 2 ⟨true, 0x01020304, 443⟩ "a.test".toList).2.target = "a.test:443".toList ∧
+    (chooseDialTarget w 2 ⟨true, 0x01020304, 443⟩ "b.test".toList).2.target = "1.2.3.4:443".toList ∧
+    (chooseDialTarget { w with now := 9 } 2 ⟨true, 0x01020304, 443⟩ "a.test".toList).2.target = "1.2.3.4:443".toList := by
+  decide
+
+/-! ## rows 3 and 4: domain+ and domain++ -/
+
+theorem domain_plus_name_unconditionally (w : World) (ob : Nat) (dst : Dst) (d : Str)
+    (hm : w.mode = .domainPlus) (hr : isReserved ob = false) (hd : d ≠ []) :
+    chooseDialTarget w ob dst d =
+      (w, { target := (nameTarget d dst.port).1, reroute := false, dialIp := (nameTarget d dst.port).2,
+            probeReq := none }) := by
+  rw [chooseDialTarget_eq, decideMode_plus w ob dst d hm hr hd]
+  rfl
+
+theorem domain_cao_name_and_reroute (w : World) (ob : Nat) (dst : Dst) (d : Str)
+    (hm : w.mode = .domainCao) (hr : isReserved ob = false) (hd : d ≠ []) :
+    chooseDialTarget w ob dst d =
+      (w, { target := (nameTarget d dst.port).1, reroute := true, dialIp := (nameTarget d dst.port).2,
+            probeReq := none }) := by
+  rw [chooseDialTarget_eq, decideMode_cao w ob dst d hm hr hd]
+  rfl
+
+example : (chooseDialTarget { mode := .domainPlus } 2 ⟨true, 0x01020304, 443⟩ "never.seen".toList).2
+    = { target := "never.seen:443".toList, reroute := false, dialIp := false } := by decide
+example : (chooseDialTarget { mode := .domainCao } 2 ⟨true, 0x01020304, 443⟩ "never.seen".toList).2
+    = { target := "never.seen:443".toList, reroute := true, dialIp := false } := by decide
+
+/-- domain++ "additionally the flow is routed again using that name": the outbound finally used is
+the answer of the routing function for the sniffed name (not the kernel's outbound), and the target
+is recomputed for that outbound — the name again for a user outbound, the IP for a built-in one. -/
+theorem domain_cao_routed_again_with_name (w : World) (ob ob2 nOut : Nat) (dst : Dst) (d : Str)
+    (route : Str → Option Nat)
+    (hm : w.mode = .domainCao) (hr : isReserved ob = false) (hd : d ≠ [])
+    (hrt : route d = some ob2) (hlt : ob2 < nOut) :
+    chooseProxyDialer w ob dst d route nOut =
+      (w, { outbound := some ob2,
+            target := if isReserved ob2 then fmtAddrPort dst else (nameTarget d dst.port).1,
+            dialIp := if isReserved ob2 then true else (nameTarget d dst.port).2,
+            probeReq := none }) := by
+  unfold chooseProxyDialer
+  rw [domain_cao_name_and_reroute w ob dst d hm hr hd]
+  simp only [if_true, hrt]
+  cases h2 : isReserved ob2 with
+  | true =>
+    rw [ip_target_when_ip_mode_or_no_name_or_reserved w ob2 dst d (Or.inr (Or.inr h2))]
+    simp [Nat.not_le.mpr hlt]
+  | false =>
+    rw [domain_cao_name_and_reroute w ob2 dst d hm h2 hd]
+    simp [Nat.not_le.mpr hlt]
+
+/-- … and if routing by name fails, or names an outbound that does not exist, no connection is made. -/
+theorem domain_cao_route_failure (w : World) (ob nOut : Nat) (dst : Dst) (d : Str)
+    (route : Str → Option Nat)
+    (hm : w.mode = .domainCao) (hr : isReserved ob = false) (hd : d ≠ [])
+    (hrt : route d = none ∨ ∃ ob2, route d = some ob2 ∧ nOut ≤ ob2) :
+    (chooseProxyDialer w ob dst d route nOut).2.outbound = none := by
+  unfold chooseProxyDialer
+  rw [domain_cao_name_and_reroute w ob dst d hm hr hd]
+  rcases hrt with h | ⟨ob2, h, hge⟩
+  · simp [h]
+  · simp only [if_true, h]
+    cases h2 : isReserved ob2 with
+    | true =>
+      rw [ip_target_when_ip_mode_or_no_name_or_reserved w ob2 dst d (Or.inr (Or.inr h2))]
+      simp [hge]
+    | false =>
+      rw [domain_cao_name_and_reroute w ob2 dst d hm h2 hd]
+      simp [hge]
+
+/-- the routing function is consulted at the sniffed name only. -/
+theorem route_consulted_at_name_only (w : World) (ob nOut : Nat) (dst : Dst) (d : Str)
+    (r1 r2 : Str → Option Nat) (h : r1 d = r2 d) :
+    chooseProxyDialer w ob dst d r1 nOut = chooseProxyDialer w ob dst d r2 nOut := by
+  unfold chooseProxyDialer
+  rw [h]
+
+/-- without a re-route request (ip mode, domain+, a non-genuine name in domain mode, no name …) and
+unless the kernel asked for control-plane routing, the kernel's outbound and the first target stand. -/
+theorem no_reroute_keeps_outbound (w : World) (ob nOut : Nat) (dst : Dst) (d : Str)
+    (route : Str → Option Nat)
+    (hrr : (chooseDialTarget w ob dst d).2.reroute = false) (hob : ob ≠ outboundControlPlaneRouting)
+    (hlt : ob < nOut) :
+    (chooseProxyDialer w ob dst d route nOut).2.outbound = some ob ∧
+    (chooseProxyDialer w ob dst d route nOut).2.target = (chooseDialTarget w ob dst d).2.target ∧
+    (chooseProxyDialer w ob dst d route nOut).2.dialIp = (chooseDialTarget w ob dst d).2.dialIp := by
+  unfold chooseProxyDialer
+  rcases hc : chooseDialTarget w ob dst d with ⟨w1, c1⟩
+  rw [hc] at hrr
+  simp only [] at hrr
+  simp [hrr, hob, Nat.not_le.mpr hlt]
+
+example :
+    let route : Str → Option Nat := fun n => if n = "re.test".toList then some 3 else some 0
+    (chooseProxyDialer { mode := .domainCao } 2 ⟨true, 0x01020304, 443⟩ "re.test".toList route 5).2
+      = { outbound := some 3, target := "re.test:443".toList, dialIp := false, probeReq := none } ∧
+    (chooseProxyDialer { mode := .domainCao } 2 ⟨true, 0x01020304, 443⟩ "x.test".toList route 5).2
+      = { outbound := some 0, target := "1.2.3.4:443".toList, dialIp := true, probeReq := none } ∧
+    (chooseProxyDialer { mode := .domainPlus } 2 ⟨true, 0x01020304, 443⟩ "re.test".toList route 5).2
+      = { outbound := some 2, target := "re.test:443".toList, dialIp := false, probeReq := none } := by
+  decide
+
 end DaeVerif.C18.Props
